@@ -2980,6 +2980,10 @@ class bs_rel_off(bs_cond_imm):
         assert(parent_len % 8 == 0)
 
         v = int(self.expr) - parent_len // 8
+        if v < 0:
+            # The destination is below the end of the instruction (a branch
+            # to itself): the difference is taken modulo the offset size
+            v &= (1 << l) - 1
         if prefix is None:
             return
         mask = ((1 << self.l) - 1)
